@@ -230,6 +230,58 @@ def mech_of(feats, f):
     return None
 
 
+def decorated_reader_job(arg):
+    """The load sits in a helper wrapped by a plain user decorator (a closure bound to the helper's name; decorators are
+    documented as not supported): the evaluation is either refused with a DDS error or returns what plain execution returns -
+    never the previous content of the path."""
+    import os
+
+    from vp.worker import run_segment
+
+    idx, wraps, store = arg
+    rep = core.Report("C09")
+    rep.evaluations = 1
+    P = "c9deco%d" % idx
+    case = {"decorated_reader": True, "idx": idx, "wraps": wraps, "store": store}
+
+    def files(c):
+        deco = ("import functools\n\n\ndef logged(fn):\n%s    def inner(*a, **k):\n        return fn(*a, **k)\n    return inner\n" % ("    @functools.wraps(fn)\n" if wraps else ""))
+        return {P + "/__init__.py": "# pkg\n", P + "/deco.py": deco,
+                P + "/m.py": "import dds\nfrom vp import vlog\nfrom %s.deco import logged\n\nCONST = %d\n\n\ndef prod():\n    vlog.hit('prod')\n    return ('prod', CONST)\n\n\n@logged\ndef latest():\n    return dds.load('/c9d/p')\n\n\n"
+                            "def reader():\n    vlog.hit('reader')\n    return ('reader', latest())\n\n\ndef pmain():\n    return dds.keep('/c9d/p', prod)\n\n\ndef rmain():\n    return dds.keep('/c9d/r', reader)\n" % (P, c)}
+
+    def ent(fn):
+        return {"style": "eval", "module": P + ".m", "func": fn, "args_src": "()"}
+
+    mods = [P + ".deco", P + ".m"]
+    with core.Scratch("vp_c09d_") as td:
+        root = os.path.join(td, "code")
+        os.makedirs(root)
+        steps = [{"write": files(1), "how": "import", "modules": mods, "entry": ent("pmain")}, {"how": "none", "entry": ent("rmain")},
+                 {"write": files(2), "how": "reload", "modules": mods, "entry": ent("pmain")}, {"how": "none", "entry": ent("rmain")}]
+        o = core.fork_call(run_segment, {"mode": "impl", "root": root, "accept": [P], "steps": steps, "store": {"kind": store, "dir": os.path.join(td, "store")}}, timeout=300)
+    if isinstance(o, core.JobFailed):
+        rep.inconclusive.append("decorated-reader worker failed: %r" % (o,))
+        return rep
+    for x in o["steps"]:
+        if "setup_error" in x:
+            rep.inconclusive.append("setup error: %s" % x["setup_error"][-300:])
+            return rep
+    for si, c in ((1, 1), (3, 2)):
+        r = o["steps"][si]["result"]
+        rep.count("decorated_reader_evaluations")
+        if r[0] == "exc" and r[4]:
+            rep.count("decorated_reader_refused_with_dds_error")
+            continue
+        want = ("reader", ("prod", c))
+        if r[0] != "ok" or pickle.loads(r[1]) != want:
+            rep.violate("load inside a helper wrapped by a user decorator (%s functools.wraps): the reader returned %s, the path serves %r" % ("with" if wraps else "without", r[2][:100] if r[0] == "ok" else "%s(%s)" % (r[1], r[2][:80]), ("prod", c)),
+                        case, mechanism="decorated-reader-stale")
+            return rep
+    rep.nontriv(("c09deco", wraps, store))
+    return rep
+
+
 def other_process_job(arg):
     """A long-lived process produces the path and evaluates its reader; another process keeps an edited producer at the
     same path; the first process (same store object, modules untouched) evaluates the reader again: the load must see
@@ -360,6 +412,12 @@ def run(tier, seed):
                     if tier == "quick" and (ei + si + len(placement)) % 3 == 0 and store not in ("local_lru", "local_api_cache_all"):
                         continue
                     ojobs.append((placement, producer, edit, store, idx))
+    dres = core.fork_map(decorated_reader_job, [(di, w, st) for di, (w, st) in enumerate([(False, "local"), (True, "local"), (False, "memory"), (True, "local_lru")])], timeout=600)
+    for r in dres:
+        if isinstance(r, core.JobFailed):
+            rep.inconclusive.append("decorated reader: %r" % (r,))
+        else:
+            rep.merge(r)
     results = core.fork_map(lambda j: other_process_job(j[1]) if j[0] == "o" else case_job(j[1]), [("c", j) for j in jobs] + [("o", j) for j in ojobs], timeout=900)
     for j, r in zip(jobs + [None] * len(ojobs), results):
         if isinstance(r, core.JobFailed):
@@ -378,6 +436,10 @@ def replay(payload):
     rep = core.Report("C09")
     if "other_process" in payload["case"]:
         rep.merge(other_process_job(tuple(payload["case"]["other_process"])))
+        return rep
+    if payload["case"].get("decorated_reader"):
+        c = payload["case"]
+        rep.merge(decorated_reader_job((c["idx"], c["wraps"], c["store"])))
         return rep
     c = payload["case"]["case"]
     name = c["name"].split(":", 1)[1]
